@@ -404,14 +404,9 @@ theorem replaceAcl_mem {acls : List Acl} {a x : Acl} (h : x ∈ replaceAcl acls 
   · left; rfl
   · right; exact hy
 
-theorem parseAclLine_wf (c c' : Conf) (toks : List Bytes) (hw : c.WF) (ht : ∀ t ∈ toks, t ≠ [])
-    (h : parseAclLine c toks = .ok c') : c'.WF := by
-  unfold parseAclLine at h
-  split at h
-  · cases h
-  · cases h
-  rename_i name ty rest
-  have hrest : ∀ t ∈ rest, t ≠ [] := fun t h' => ht t (by simp [h'])
+theorem parseAclNamed_wf (c c' : Conf) (name ty : Bytes) (rest : List Bytes) (hw : c.WF) (hrest : ∀ t ∈ rest, t ≠ [])
+    (h : parseAclNamed c name ty rest = .ok c') : c'.WF := by
+  unfold parseAclNamed at h
   split at h
   · -- a new name
     split at h
@@ -470,6 +465,15 @@ theorem parseAclLine_wf (c c' : Conf) (toks : List Bytes) (hw : c.WF) (ht : ∀ 
         rw [findAcl_isSome_iff] at this ⊢
         simp only
         rw [replaceAcl_names]; exact this
+
+theorem parseAclLine_wf (c c' : Conf) (toks : List Bytes) (hw : c.WF) (ht : ∀ t ∈ toks, t ≠ [])
+    (h : parseAclLine c toks = .ok c') : c'.WF := by
+  unfold parseAclLine at h
+  split at h
+  · cases h
+  · cases h
+  rename_i name ty rest
+  exact parseAclNamed_wf _ _ _ _ _ hw (fun t h' => ht t (by simp [h'])) h
 
 theorem lineParse_defined (acls : List Acl) : ∀ (ts : List Bytes) (lits : List (Bool × Bytes)),
     lineParse acls ts = .ok lits → ∀ l ∈ lits, (findAcl acls l.2).isSome = true
@@ -800,13 +804,10 @@ theorem findAcl_replace (acls : List Acl) (a' : Acl) (n : Bytes) :
     rw [h1]
   · simp only [ha, Bool.false_eq_true, ↓reduceIte]
 
-theorem parseAclLine_all (c c' : Conf) (toks : List Bytes) (hinv : AllInv c) (h : parseAclLine c toks = .ok c') : AllInv c' := by
+theorem parseAclNamed_all (c c' : Conf) (name ty : Bytes) (rest : List Bytes) (hinv : AllInv c)
+    (h : parseAclNamed c name ty rest = .ok c') : AllInv c' := by
   obtain ⟨all, hfa, hty, h4⟩ := hinv
-  unfold parseAclLine at h
-  split at h
-  · cases h
-  · cases h
-  rename_i name ty rest
+  unfold parseAclNamed at h
   split at h
   · -- a new name: `all` is still found first
     split at h
@@ -855,6 +856,13 @@ theorem parseAclLine_all (c c' : Conf) (toks : List Bytes) (hinv : AllInv c) (h 
         exact ⟨a', rfl, t1, t3 h4⟩
       · simp only [hn, Bool.false_eq_true, ↓reduceIte]
         exact ⟨all, rfl, hty, h4⟩
+
+theorem parseAclLine_all (c c' : Conf) (toks : List Bytes) (hinv : AllInv c) (h : parseAclLine c toks = .ok c') : AllInv c' := by
+  unfold parseAclLine at h
+  split at h
+  · cases h
+  · cases h
+  exact parseAclNamed_all _ _ _ _ _ hinv h
 
 theorem parseLine_all (c c' : Conf) (line : Bytes) (hinv : AllInv c) (h : parseLine c line = .ok c') : AllInv c' := by
   unfold parseLine at h
